@@ -46,12 +46,14 @@ type Case struct {
 	N     int    `json:"n"`
 	C     string `json:"c"`     // readers.json | readers.post | readers.get | readers.legacy | readers.stdio
 	Label string `json:"label"` // the trigger category used in fingerprints
+	Trig  string `json:"trig,omitempty"` // a coarser class than the label, when the generator names one (fingerprints)
 	// json
 	Status int    `json:"status,omitempty"`
 	CType  string `json:"ctype,omitempty"`
 	Body   *Line  `json:"body,omitempty"`
 	// post / get
 	Req      int      `json:"req,omitempty"`
+	SlowMs   int      `json:"slowMs,omitempty"` // the call's deadline when the generator expects a slow (not a stuck) decode
 	Handlers []string `json:"handlers"`
 	Lines    []Line   `json:"lines,omitempty"`
 	End      string   `json:"end,omitempty"`
@@ -67,14 +69,47 @@ type Case struct {
 	Exit   bool    `json:"exit,omitempty"` // the peer closes its stdout after the script (a later call cannot be answered)
 }
 
+// A generated filler too deep for the tools that read the op lines: `@@FILL:deep:<depth>:<via>@@` in a text stands for
+// deepSchema(depth, via) on the wire and for a small placeholder object in the JSON the model is given.
+const fillOpen, fillClose = "@@FILL:", "@@"
+
+func fillOf(txt string) (before, spec, after string, ok bool) {
+	i := strings.Index(txt, fillOpen)
+	if i < 0 {
+		return
+	}
+	j := strings.Index(txt[i+len(fillOpen):], fillClose)
+	if j < 0 {
+		return
+	}
+	return txt[:i], txt[i+len(fillOpen) : i+len(fillOpen)+j], txt[i+len(fillOpen)+j+len(fillClose):], true
+}
+
+func fillText(spec string) string {
+	var depth int
+	var via string
+	if _, err := fmt.Sscanf(strings.ReplaceAll(spec, ":", " "), "deep %d %s", &depth, &via); err != nil {
+		panic("generator: unknown filler " + spec)
+	}
+	return deepSchema(depth, via)
+}
+
 func expand(txt string, pad int) string {
+	if b, spec, a, ok := fillOf(txt); ok {
+		txt = b + fillText(spec) + a
+	}
 	if pad == 0 {
 		return txt
 	}
 	return strings.Replace(txt, padMark, strings.Repeat("x", pad), 1)
 }
 
-func collapse(txt string) string { return strings.Replace(txt, padMark, "PAD", 1) }
+func collapse(txt string) string {
+	if b, spec, a, ok := fillOf(txt); ok {
+		txt = b + fmt.Sprintf(`{"collapsed":%q}`, spec) + a
+	}
+	return strings.Replace(txt, padMark, "PAD", 1)
+}
 
 // classify fills the oracle bits of a payload text (already trimmed as the readers trim it).
 func classify(l *Line, payload string, pad int) {
@@ -1048,5 +1083,6 @@ func genCases(r *rand.Rand, thorough bool) []*Case {
 	g.getCases(thorough)
 	g.legacyCases(thorough)
 	g.stdioCases(thorough)
+	g.schemaCases(thorough)
 	return g.cases
 }
